@@ -12,10 +12,10 @@ import kani_run
 WITNESS = {
     "consolidate": ("src/storage/persist/consolidate.rs", "all logs of length <= 6 over 3 tuples, diffs in {+1,-1,0}"),
     "bloom": ("src/bloom_filter.rs", "10 sizes x 9 hash counts x 160 keys via with_params, 4 filters via new"),
-    "insert_dedup": ("src/storage_engine/mod.rs", "two overlapping batches, 9 x 4 shapes up to 4500 tuples with in-batch repetitions"),
+    "insert_dedup": ("src/storage_engine/mod.rs", "two overlapping batches, 10 x 4 shapes up to 18000 tuples with in-batch repetitions"),
     "auth": ("src/auth.rs", "every MetaCommand variant and one statement of every other kind x every role"),
     "lsh": ("src/vector_ops.rs", "4 buckets x hyperplane counts {0..8,61,62,63,64,100} x probe counts 0..200"),
-    "pushdown": ("src/optimizer/mod.rs", "left width <= 3, right arity <= 4, every key subset of size <= 2, every tested column"),
+    "pushdown": ("src/optimizer/mod.rs", "left width <= 3, right arity <= 4, every key subset of size <= 2, every tested column and column pair"),
     "matches": ("src/schema/mod.rs", "every schema type x 14 representative values (vector lengths 0..3)"),
     "codegen_guard": ("src/code_generator/mod.rs", "every plan tree of depth <= 3 over the 11 constructible node kinds (Union of 2)"),
 }
